@@ -105,6 +105,20 @@ def judgeExcl (_payload impl : String) : Verdict :=
   { corr := ok, implSpec := ok, modelSpec := true, tags := [], nontrivial := true, cls := "excl",
     model := "(excl reached (after ... blocked))", spec := "the other task blocks while one is inside the locked region" }
 
+/-! ### sched.indep (C10): schedule independence without a model -/
+
+/-- what the dissector makes of the two byte streams under the given schedule must be what it makes
+    of them when the client half runs to its end first -/
+def judgeIndep (_payload impl : String) : Verdict :=
+  match Sx.parse impl with
+  | some (.list [.list [.atom "seq", a], .list [.atom "this", b]]) =>
+    let ok := a.toStr == b.toStr
+    { corr := ok, implSpec := ok && (impl.splitOn "panics").length == 1 && (impl.splitOn "deadlock").length == 1,
+      modelSpec := true, tags := [], nontrivial := true, cls := "indep", model := a.toStr,
+      spec := "the outcome of the run client half first, then server half" }
+  | _ => { corr := false, implSpec := false, modelSpec := true, tags := [], nontrivial := true, cls := "no-observation",
+           model := "-", spec := "the outcome of the sequential run" }
+
 /-! ### sched.emit (C19) -/
 
 def traceSx (w : World) : Sx :=
@@ -130,7 +144,11 @@ def emitSpecHolds (total : Nat) (obs : Sx) : Bool :=
   | _, _ => false
 
 def judgeEmit (payload impl : String) : Verdict :=
-  match Sx.parse payload with
+  -- a third element `closed`: the stream reports itself closed; Emit must behave the same
+  let parsed := match Sx.parse payload with
+    | some (.list [tasks, order, .atom "closed"]) => some (Sx.list [tasks, order])
+    | other => other
+  match parsed with
   | some (.list [tasks, order]) =>
     let specs := (tasks.asList?.getD []).filterMap fun
       | .list [st, k] => match st.asNat?, k.asNat? with
